@@ -1,7 +1,7 @@
 """C06 — 3D-to-2D mapping gives a valid matching and faithful text for any pair list."""
 import itertools
 
-from . import annot, geo
+from . import chem, annot, geo
 from .core import Err, Nat, Raw, lit
 
 RUN_TARGETS = ["Run/RGeo.vo"]
@@ -169,7 +169,7 @@ def spec(s3, lst, gaps, m):
             continue
         if not (R[i].is_nucleotide and R[j].is_nucleotide):
             continue
-        a, b, l2 = (i, j, lw) if R[i] < R[j] else (j, i, lw[0] + lw[2] + lw[1])
+        a, b, l2 = (i, j, lw) if chem.res_lt(R[i], R[j]) else (j, i, lw[0] + lw[2] + lw[1])
         if (R[a].chain, R[a].number, R[a].icode or " ") == (R[b].chain, R[b].number, R[b].icode or " "):
             continue
         want_rows.setdefault(l2, set()).add((index_of_res[a], index_of_res[b]))
